@@ -17,6 +17,7 @@ type Spec struct {
 	Level   string // evidence level
 	Tier    string
 	Harness Harness
+	Harnesses []Harness // all harnesses to inject (defaults to {Harness}); a Config selects its own through Config.Harness
 	LoadPkgs []string
 	Opts    RunOpts
 	Configs []Config
@@ -58,8 +59,11 @@ func Sample(cfgs []Config, n, seed int) []Config {
 func Execute(sp *Spec) int {
 	t0 := time.Now()
 	p := sp.Program
+	if len(sp.Harnesses) == 0 {
+		sp.Harnesses = []Harness{sp.Harness}
+	}
 	if p == nil {
-		p = LoadProgram(sp.LoadPkgs, sp.Harness)
+		p = LoadProgram(sp.LoadPkgs, sp.Harnesses...)
 	}
 	loadS := time.Since(t0).Seconds()
 	sp.Opts.Pkg = sp.Harness.Pkg
@@ -150,7 +154,11 @@ func Finish(sp *Spec, outs []Outcome, t0 time.Time, loadS float64) int {
 					violations = append(violations, fmt.Sprintf("UNREPLAYED property=%s key=%q (replay budget used)", sp.ID, key))
 					continue
 				}
-				rf := &ReplayFile{Property: sp.ID, Harness: sp.Harness.File, Pkg: sp.Harness.Pkg, Func: o.Config.Func, Args: o.Config.ArgStrings(),
+				hh := sp.Harness
+				if o.Config.Harness != nil {
+					hh = *o.Config.Harness
+				}
+				rf := &ReplayFile{Property: sp.ID, Harness: hh.File, Extra: hh.Extra, Pkg: hh.Pkg, Func: o.Config.Func, Args: o.Config.ArgStrings(),
 					Config: o.Config.Name, Assert: ob.Tag, Kind: ob.Kind, Vector: ob.Model}
 				replays++
 				path := WriteReplay(rf, replays)
